@@ -828,7 +828,8 @@ impl SuffixArrayBuilder {
         }
 
         if text.len() == 2 {
-            return Ok(if text[0] <= text[1] { vec![0, 1] } else { vec![1, 0] });
+            // two equal bytes: the shorter suffix text[1..] is a proper prefix of text[0..] and sorts first
+            return Ok(if text[0] < text[1] { vec![0, 1] } else { vec![1, 0] });
         }
 
         // For now, use a simple sorting approach since the full DC3 is complex
